@@ -14,7 +14,7 @@ Open Scope string_scope.
    - whose assertion labels are fixed points of to_claim's dispatch after one step and are not the archive's bookkeeping
      label (well_formed),
    - whose resources can be produced (resources_ok),
-   - outside the known classes F-ARCHIVE-THUMB / F-ARCHIVE-DATABOX (archive_safe),
+   - outside the open class F-ARCHIVE-DATABOX (archive_safe: claim v2, or no ingredient thumbnails),
    every SDK version tag, fresh labels and signing format: the archive is written, the restored builder signs, and its
    report equals the report of signing the original (all modelled fields: the two ReportM records are equal); the
    three hypotheses hold again for the restored builder. *)
@@ -48,12 +48,17 @@ Proof. exact local_resources_ok. Qed.
 Theorem c22_plain_labels_stable : forall l j c p, plain_label l -> stable (l, j, c, p).
 Proof. exact plain_stable. Qed.
 
-(* outside the hypotheses the statement is false of the model (each witness is replayed on the implementation):
-   a thumbnail but no ingredient; claim v1 with an ingredient thumbnail; a label with two version components *)
-Theorem c22_archive_thumb_refuted :
+(* the repaired class F-ARCHIVE-THUMB (a thumbnail but no ingredient) is covered by c22_restore_id; its old witness: *)
+Theorem c22_archive_thumb_fixed :
   sign_read "v" "l" "f" thumb_builder <> None
-  /\ match save_restore "v" "l" thumb_builder with Some b' => sign_read "v" "l" "f" b' = None | None => False end.
-Proof. exact archive_thumb_refuted. Qed.
+  /\ match save_restore "v" "l" thumb_builder with
+     | Some b' => sign_read "v" "l" "f" b' = sign_read "v" "l" "f" thumb_builder
+     | None => False
+     end.
+Proof. exact archive_thumb_fixed. Qed.
+
+(* outside the hypotheses the statement is false of the model (each witness is replayed on the implementation):
+   claim v1 with an ingredient thumbnail; a label with two version components *)
 Theorem c22_archive_databox_refuted :
   sign_read "v" "l" "f" databox_builder <> None
   /\ match save_restore "v" "l" databox_builder with Some b' => sign_read "v" "l" "f" b' = None | None => False end.
